@@ -32,10 +32,12 @@ Bytes union_values(const Bytes &a, const Bytes &b)
 void merge_union_cb(void *clos, const uint8_t *key, size_t len_key, const uint8_t *v0, size_t l0,
 		    const uint8_t *v1, size_t l1, uint8_t **out, size_t *lout)
 {
-	MergeCtx *m = (MergeCtx *)clos;
-	m->calls++;
-	m->per_key[Bytes((const char *)key, len_key)]++;
-	if (m->fail_at && m->calls == m->fail_at) { m->failed_key = Bytes((const char *)key, len_key); m->fail_fired = true; *out = nullptr; *lout = 0; return; }
+	MergeCtx *m = (MergeCtx *)clos;	// NULL = stateless (callbacks running on pool workers)
+	if (m) {
+		m->calls++;
+		m->per_key[Bytes((const char *)key, len_key)]++;
+		if (m->fail_at && m->calls == m->fail_at) { m->failed_key = Bytes((const char *)key, len_key); m->fail_fired = true; *out = nullptr; *lout = 0; return; }
+	}
 	Bytes r = union_values(Bytes((const char *)v0, l0), Bytes((const char *)v1, l1));
 	*out = (uint8_t *)malloc(r.size() ? r.size() : 1);
 	memcpy(*out, r.data(), r.size());
